@@ -312,17 +312,43 @@ def _rule_c05_r4(model: Model) -> RuleResult:
             return None
         return oracle
 
-    for bits in itertools.product([False, True], repeat=len(opts)):
-        combo = dict(zip(opts, bits))
-        sf = specialize(model, f, make_oracle(combo))
-        cfg = CFG(model, sf)
-        live = cfg.reachable()
-        rets = [n for n in cfg.nodes if n.id in live and n.kind == 'return' and n.ast is not None and n.ast.value is not None]
-        raises = [n for n in cfg.nodes if n.id in live and n.kind == 'raise']
-        conds = [n for n in cfg.nodes if n.id in live and n.kind == 'cond']
-        label = ', '.join(k.replace('self.', '').replace('$', 'class ') for k, v in combo.items() if v) or 'nothing given'
-        if conds:
-            raise AnalysisError(f"{f.loc(conds[0].ast)}: make_field branches on `{unparse(conds[0].ast)}`, which the naming analysis cannot decide")
+    def configurations() -> t.Iterator[t.Tuple[t.Dict[str, bool], FuncInfo, CFG, t.List[t.Any], t.List[t.Any], str]]:
+        """Every naming configuration; a branch on something else than the configuration (e.g. on the spelling of the name) is explored
+        both ways, each way being one more configuration to check."""
+        for bits in itertools.product([False, True], repeat=len(opts)):
+            combo0 = dict(zip(opts, bits))
+            pending: t.List[t.Dict[str, bool]] = [{}]
+            while pending:
+                forced = pending.pop()
+                base = make_oracle(combo0)
+
+                def oracle(test: ast.expr, base: t.Any = base, forced: t.Dict[str, bool] = forced) -> t.Optional[bool]:
+                    v = base(test)
+                    if v is not None:
+                        return v
+                    return forced.get(unparse(test))
+                sf_ = specialize(model, f, oracle)
+                cfg_ = CFG(model, sf_)
+                live_ = cfg_.reachable()
+                conds_ = [n for n in cfg_.nodes if n.id in live_ and n.kind == 'cond']
+                if conds_:
+                    key_ = unparse(conds_[0].ast)
+                    if len(forced) >= 3 or key_ in forced:
+                        raise AnalysisError(f"{f.loc(conds_[0].ast)}: make_field branches on `{key_}`, which the naming analysis cannot decide")
+                    # the branch statement's own test text (the CFG splits and / or into several nodes)
+                    tests = [x.test for x in ast.walk(sf_.node) if isinstance(x, (ast.If, ast.IfExp))]
+                    tkey = unparse(tests[0]) if tests else key_
+                    pending.append({**forced, tkey: True})
+                    pending.append({**forced, tkey: False})
+                    continue
+                rets_ = [n for n in cfg_.nodes if n.id in live_ and n.kind == 'return' and n.ast is not None and n.ast.value is not None]
+                raises_ = [n for n in cfg_.nodes if n.id in live_ and n.kind == 'raise']
+                label_ = ', '.join(k.replace('self.', '').replace('$', 'class ') for k, v in combo0.items() if v) or 'nothing given'
+                if forced:
+                    label_ += ' / ' + ', '.join(f"{k} is {v}" for k, v in forced.items())
+                yield combo0, sf_, cfg_, rets_, raises_, label_
+
+    for (combo, sf, cfg, rets, raises, label) in configurations():
         if raises and not rets:
             continue           # configuration refused at class creation
         if len(rets) != 1:
@@ -338,8 +364,10 @@ def _rule_c05_r4(model: Model) -> RuleResult:
         kw = {k.arg: k.value for k in call.keywords if k.arg}
         if 'out_name' not in kw or 'in_names' not in kw:
             raise AnalysisError(f"{f.loc(call)}: Field(...) built without out_name= / in_names=")
-        out_form = nz.expr(kw['out_name'], rets[0])
-        in_form = nz.expr(kw['in_names'], rets[0])
+        # (no style given: rename_field hands the name back, see C20-R1)
+        no_style = lambda x: re.sub(r'pane\.field\.rename_field\((\$\w+), None\)', r'\1', x)      # noqa: E731
+        out_form = no_style(nz.expr(kw['out_name'], rets[0]))
+        in_form = no_style(nz.expr(kw['in_names'], rets[0]))
         r.sample({'configuration': label, 'out_name': out_form, 'in_names': in_form})
         if combo['self.out_name'] or combo['self.in_names']:
             r.ok()             # the user chose one side explicitly
